@@ -184,6 +184,13 @@ func (h *harness) handlerOpts(cfg Config, typ string) []res.Option {
 		h.mu.Lock()
 		cb := h.curCb
 		h.mu.Unlock()
+		if cb != nil && cb.Via == "value" && r.ForValue() {
+			// the get handler runs because a callback asked for the resource's value: events
+			// it emits are events of the resource like any other
+			h.exec(r, nil, "with", cb.Script)
+			r.NotFound()
+			return
+		}
 		if cb == nil || cb.Via != "get" {
 			r.NotFound()
 			return
@@ -740,10 +747,17 @@ func runCase(c Case) (string, bool) {
 		start := h.conn.LogLen()
 		reply := ""
 		switch cb.Via {
-		case "with", "kept":
+		case "with", "kept", "value":
 			done := make(chan struct{})
 			if err := s.With(cb.RName, func(rr res.Resource) {
 				defer close(done)
+				if cb.Via == "value" {
+					h.mu.Lock()
+					h.curCb = &cb
+					h.mu.Unlock()
+					_, _ = rr.Value() // runs the get handler, which runs the script
+					return
+				}
 				if cb.Via == "kept" {
 					// the script runs on the request object kept by an earlier handler of this
 					// resource, if there was one
@@ -825,7 +839,7 @@ func runCase(c Case) (string, bool) {
 			return fmt.Sprintf("callback %s on %s: %s", cb.Via, cb.RName, msg), nt
 		}
 		pcb := cb
-		if pcb.Via == "kept" {
+		if pcb.Via == "kept" || pcb.Via == "value" {
 			pcb.Via = "with"
 		}
 		want, failing, invalid, events := predict(c.Cfg, pcb, reply)
@@ -859,7 +873,7 @@ func genCase() *rapid.Generator[Case] {
 		c.PubFail = rapid.IntRange(0, 5).Draw(t, "pubfail") == 0
 		n := rapid.IntRange(1, 4).Draw(t, "ncb")
 		for i := 0; i < n; i++ {
-			cb := Callback{Via: rapid.SampledFrom([]string{"with", "call", "call", "get", "access", "query", "kept"}).Draw(t, "via")}
+			cb := Callback{Via: rapid.SampledFrom([]string{"with", "call", "call", "get", "access", "query", "kept", "value"}).Draw(t, "via")}
 			class := rapid.SampledFrom([]string{"m", "c", "u", "mm", "m", "c", "root"}).Draw(t, "class")
 			cb.RName = "svc." + class + "." + rapid.SampledFrom([]string{"1", "2", "abc"}).Draw(t, "id")
 			if class == "root" {
